@@ -112,7 +112,10 @@ def start(h, name, p):
     if name in MD:
         guard(h.initstate)
     elif name in BLAKES:
-        guard(h.initstate, salt=p.get("salt", 0))
+        if p.get("salt", 0):
+            guard(h.initstate, salt=p["salt"])
+        else:
+            guard(h.initstate)            # the default (no salt), whatever salt an earlier call on this object used
     else:
         guard(h.initstate, **b2kwargs(p))
 
@@ -265,6 +268,15 @@ def check_nilsimsa(c):
     if got != one:
         raise Violation("nilsimsa:piecewise!=one-shot", one, got)
     eq(len(got), 32, "nilsimsa:digest-length")
+    # a second message streamed into the same object after its digest was taken: a new computation
+    data2 = data[::-1] + b"second"
+    one2 = guard(Nilsimsa(target), data2)
+    k = pts[1] if len(pts) > 2 else len(data2) // 2
+    guard(n.update, data2[:k])
+    guard(n.update, data2[k:])
+    got2 = guard(n.digest)
+    if got2 != one2:
+        raise Violation("nilsimsa:second-stream-on-the-same-object!=one-shot", one2, got2)
 
 
 def nilsimsa_cases(tier, rnd):
